@@ -328,6 +328,23 @@ BurstStep(ev) ==
       /\ Chk("C01", "burst.panic", ev.panics = 0, ev, "get_message")
       /\ Mark("C04", base /\ ev.tried > 0, ev)
 
+
+(***************************** CLI runs ************************************)
+\* ev: [opts, args: [f, d], lines, code, timeout, nsnaps, last: <<>> | <<[header, sep, rows, counts]>>, profile]
+RECURSIVE HexNum(_, _, _)
+HexNum(s, i, acc) == IF i > Len(s) THEN acc ELSE HexNum(s, i + 1, 16 * acc + HexVal(s[i]))
+RowAddr(row) == IF Len(row) >= 6 /\ \A j \in 1..6 : IsHex(row[j]) THEN HexNum(SubSeq(row, 1, 6), 1, 0) ELSE -1
+CliStep(ev) ==
+  LET n    == Len(ev.lines)
+      lis  == [k \in 1..n |-> LineInfo(ev.lines[k])]
+      ai   == AppliedIdx(lis, ev.args.f)
+      addrs == {lis[ai[j]].a : j \in 1..Len(ai)}
+      shown == IF ev.last = <<>> THEN {} ELSE {RowAddr(ev.last[1].rows[j]) : j \in 1..Len(ev.last[1].rows)}
+      observable == ev.quiet = FALSE /\ ev.args.d >= 60 /\ ev.args.u < 0
+  IN  /\ Chk("C01", "cli.exit", ev.code = 0 /\ ~ev.timeout, ev, ev.profile)
+      /\ Chk("C01", "cli.processed", (observable /\ ev.code = 0 /\ ~Wild(lis, ev.args.f)) => addrs \subseteq shown, ev, ev.profile)
+      /\ Mark("C01", TRUE, ev)
+
 (***************************** events **************************************)
 RunStep(ev) ==
   LET s    == ev.slot
@@ -357,6 +374,8 @@ RunStep(ev) ==
       ok ==
         /\ (IF sane THEN TRUE ELSE PrintT(<<"TOOLERR", "table out of sync", ev.i>>))
         /\ Chk("C01", "completed", ev.ok, ev, ev.outk)
+        /\ Chk("C01", "later.processed", (ev.ok /\ sane /\ Len(ai) <= 11) =>
+                   {lis[ai[j]].a : j \in 1..Len(ai)} \subseteq ToSet(ev.k1), ev, "sentinel")
         /\ Mark("C01", TRUE, ev)
         /\ (IF ~sane THEN TRUE
             ELSE IF n = 1 THEN OneLine(ev, a1, tbl, aux, obs)
@@ -394,6 +413,7 @@ Step(ev) ==
   ELSE IF ev.e = "tick" THEN TickStep(ev)
   ELSE IF ev.e = "save" THEN SaveStep(ev)
   ELSE IF ev.e = "restore" THEN RestoreStep(ev)
+  ELSE IF ev.e = "cli" THEN (IF CliStep(ev) THEN st ELSE st)
   ELSE IF ev.e = "icaosweep" THEN (IF IcaoSweepStep(ev) THEN st ELSE st)
   ELSE IF ev.e = "burst" THEN (IF BurstStep(ev) THEN st ELSE st)
   ELSE st
